@@ -14,8 +14,8 @@ ASSUMPTIONS = [
     "histories and are judged by the monitors (keeper_ nonce records and contract code/storage hold no value; C17 proves their conservation)",
     "a state record the decoder does not recognise fails the check (never silently dropped)",
     "per-kind theorems are about the effect functions of LedgerTx.v (hand-written after the Go handlers, tied by the per-step "
-    "correspondence); kinds without an effect function (allegation penalty/bounty C19, proposal fund distribution C14, validator reward "
-    "payout C13, ETH/BTC C15, OLVM C17, bid app) are covered by the monitors only",
+    "correspondence); kinds without an effect function (proposal fund distribution C14, "
+    "ETH/BTC C15, OLVM C17, bid app) are covered by the monitors only; the allegation penalty hook and WITHDRAW_REWARD are modelled",
     "a failed transaction leaves no trace (DeliverTx discards the session: C06) - also checked here on every failed step",
 ]
 
